@@ -491,6 +491,50 @@ fn short(o: &Outcome) -> String {
     s.chars().take(300).collect()
 }
 
+/// Equal outcomes, except for where the spans of error leaves end.
+fn same_but_span_ends(a: &Outcome, b: &Outcome) -> bool {
+    match (a, b) {
+        (Outcome::Err { len: la, leaves: xa }, Outcome::Err { len: lb, leaves: xb }) => {
+            la == lb && xa.len() == xb.len() && xa.iter().zip(xb).all(|(x, y)| x.text == y.text && x.span.map(|r| r.0) == y.span.map(|r| r.0))
+        }
+        _ => a == b,
+    }
+}
+
+/// The input once more, every token taken (seeded) from one of two separately lexed copies of the text.
+fn split_source(source: &str, seed: u64) -> Option<syn::DeriveInput> {
+    use proc_macro2::{Group, TokenStream, TokenTree};
+    fn next(st: &mut u64) -> bool {
+        *st ^= *st << 13;
+        *st ^= *st >> 7;
+        *st ^= *st << 17;
+        (*st >> 33) & 1 == 1
+    }
+    fn mix(a: TokenStream, b: TokenStream, st: &mut u64) -> TokenStream {
+        a.into_iter()
+            .zip(b)
+            .map(|(x, y)| match (x, y) {
+                (TokenTree::Group(gx), TokenTree::Group(gy)) => {
+                    let mut g = Group::new(gx.delimiter(), mix(gx.stream(), gy.stream(), st));
+                    g.set_span(if next(st) { gx.span() } else { gy.span() });
+                    TokenTree::Group(g)
+                }
+                (x, y) => {
+                    if next(st) {
+                        x
+                    } else {
+                        y
+                    }
+                }
+            })
+            .collect()
+    }
+    let a: TokenStream = source.parse().ok()?;
+    let b: TokenStream = source.parse().ok()?;
+    let mut st = seed | 1;
+    syn::parse2(mix(a, b, &mut st)).ok()
+}
+
 /// Run a scenario completely.
 /// Single-threaded phases of a command (enumerating sweep cases, minimising, writing replays) have no
 /// pool slot a watchdog could look at: while `TRACK` is set, every run records itself here first.
@@ -620,12 +664,14 @@ fn run_untracked(sc: &Scenario, recvs: &'static BTreeMap<&'static str, RecvDesc>
         }
         LAST_PANIC.with(|p| p.borrow_mut().take());
     }
+    let mut clean_outcome: Option<Outcome> = None;
     if !sc.env.faults.is_empty() {
         let mut clean_env = sc.env.clone();
         clean_env.faults.clear();
         world::clear_faults();
         let (exp2, _m2, _) = expect(sc, &doc, recvs, &clean_env);
         if let Ok((out2, err2)) = execute(sc, &di) {
+            clean_outcome = Some(out2.clone());
             let mut fs = Vec::new();
             judge(&exp2, &out2, err2.as_ref(), false, &_m2.may_convert, "[re-parse with faults cleared] ", &mut fs);
             for mut f in fs {
@@ -638,6 +684,31 @@ fn run_untracked(sc: &Scenario, recvs: &'static BTreeMap<&'static str, RecvDesc>
             }
         }
         world::take_log();
+    }
+    // C07.R5 / C02.R8: span-backend fault. The same text handed over as tokens drawn from two separately
+    // lexed copies (two entries of the source map): their spans do not join (`Span::join` is `None`, as it
+    // always is on a stable compiler) although line / column agree. Faults cleared; the parse must not
+    // panic, and nothing observable (value, leaves, messages, where spans start) may differ from the
+    // fault-free parse of the single-text tokens. Where a span of several tokens ends is not compared:
+    // syn's `Spanned` falls back to the first token when the join fails.
+    if (sc.env.hasher_seed >> 7) & 3 == 0 {
+        if let Some(di2) = split_source(&source, sc.env.hasher_seed) {
+            world::clear_faults();
+            let base = if sc.env.faults.is_empty() && !matches!(outcome, Outcome::Panic(_) | Outcome::SimPanic(_)) { Some(outcome.clone()) } else { clean_outcome.clone() };
+            if let Ok((o, _)) = execute(sc, &di2) {
+                j.mistakes.push("probe:split_source_reparse".to_string());
+                match (&o, &base) {
+                    (Outcome::Panic(m), _) => j.failures.push(fail("C07.R5", format!("[tokens from two source texts, spans do not join] parse panicked: {}", m))),
+                    (Outcome::SimPanic(_), _) => {}
+                    (o, Some(b)) if !matches!(b, Outcome::Panic(_) | Outcome::SimPanic(_)) && !same_but_span_ends(o, b) => j.failures.push(fail(
+                        "C02.R8",
+                        format!("[tokens from two source texts, spans do not join] outcome differs from the single-text parse: {} vs {}", short(o), short(b)),
+                    )),
+                    _ => {}
+                }
+            }
+            world::take_log();
+        }
     }
     // C14.R3 / C14.R4: nothing observable depends on hasher state, and hash and ordered maps with
     // the same key and value types behave identically (faults are keyed by item, so both meet the
